@@ -1438,6 +1438,234 @@ func c23AnySorted(n c23Node) (bool, string) {
 	return true, ""
 }
 
+// ===========================================================================
+// Encoder pool hygiene: a MarshalToBytes that fails (or panics) half way
+// through a nested value must not change what the next MarshalToBytes returns.
+// ===========================================================================
+
+var errC23Enc = fmt.Errorf("c23: custom encoder refuses")
+
+// c23FailEnc is a custom encoder that opens a list, writes K elements and then
+// fails (Mode 0) or panics (Mode 1); K < 0 fails before opening the list.
+type c23FailEnc struct {
+	K    int
+	Mode int
+}
+
+func (f *c23FailEnc) RLPEncodeSelf(e Encoder) error {
+	if f.K < 0 {
+		return errC23Enc
+	}
+	e2, err := e.EncodeList()
+	if err != nil {
+		return err
+	}
+	for i := 0; i < f.K; i++ {
+		if err := e2.Encode(i + 1); err != nil {
+			return err
+		}
+	}
+	if f.Mode == 1 {
+		panic("c23: custom encoder panics")
+	}
+	return errC23Enc
+}
+
+type c23FailMarshaler struct{}
+
+func (*c23FailMarshaler) MarshalRLP() ([]byte, error) { return nil, errC23Enc }
+
+type c23FailBinary struct{}
+
+func (*c23FailBinary) MarshalBinary() ([]byte, error) { return nil, errC23Enc }
+
+type c23Holder struct {
+	A string
+	B interface{}
+	C int
+}
+
+type c23FailShape struct {
+	name  string
+	class string
+	v     interface{}
+}
+
+func c23FailShapes() []c23FailShape {
+	type bad struct {
+		name string
+		v    interface{}
+	}
+	bads := []bad{
+		{"chan", make(chan int)}, {"func", func() {}}, {"float64", 1.5}, {"complex", complex(1, 2)},
+		{"custom-error-before-list", &c23FailEnc{K: -1}}, {"custom-error-after-0", &c23FailEnc{K: 0}}, {"custom-error-after-1", &c23FailEnc{K: 1}}, {"custom-error-after-2", &c23FailEnc{K: 2}},
+		{"custom-panic-after-1", &c23FailEnc{K: 1, Mode: 1}},
+		{"MarshalRLP-error", &c23FailMarshaler{}}, {"MarshalBinary-error", &c23FailBinary{}},
+		{"map-with-float-key", map[float64]int{1.5: 1}},
+	}
+	pre := []interface{}{"abc", 1}
+	wrap := func(container int, k int, inner interface{}) interface{} {
+		switch container {
+		case 0:
+			return append(append([]interface{}{}, pre[:k]...), inner)
+		case 1:
+			return &c23Holder{A: "abc", B: inner, C: 7}
+		default:
+			m := map[string]interface{}{"z": inner}
+			if k > 0 {
+				m["a"] = 1
+			}
+			if k > 1 {
+				m["b"] = "x"
+			}
+			return m
+		}
+	}
+	cn := []string{"slice", "struct", "map"}
+	var out []c23FailShape
+	for _, b := range bads {
+		out = append(out, c23FailShape{b.name + "@top", b.name + ":top-level", b.v})
+		for depth := 1; depth <= 3; depth++ {
+			dims := make([]int, depth)
+			for i := range dims {
+				dims[i] = 3
+			}
+			opseq.Product(dims, func(idx []int) bool {
+				for k := 0; k <= 2; k++ {
+					v := b.v
+					path := ""
+					for i := depth - 1; i >= 0; i-- {
+						kk := 1
+						if i == depth-1 {
+							kk = k
+						}
+						v = wrap(idx[i], kk, v)
+						path = cn[idx[i]] + ">" + path
+					}
+					out = append(out, c23FailShape{fmt.Sprintf("%s%s(k=%d)", path, b.name, k), fmt.Sprintf("%s:nested-depth-%d", b.name, depth), v})
+				}
+				return true
+			})
+		}
+	}
+	return out
+}
+
+type c23Good struct {
+	name string
+	v    interface{}
+	back func() interface{} // fresh target for decoding
+	same func(decoded interface{}) bool
+}
+
+func c23GoodValues() []c23Good {
+	s3 := &c23S3{A: 0x1234, B: []byte("hello")}
+	return []c23Good{
+		{"struct", s3, func() interface{} { return new(c23S3) }, func(d interface{}) bool {
+			x := d.(*c23S3)
+			return x.A == s3.A && bytes.Equal(x.B, s3.B) && x.C == nil
+		}},
+		{"int", int64(-129), func() interface{} { return new(int64) }, func(d interface{}) bool { return *d.(*int64) == -129 }},
+		{"string", "abc", func() interface{} { return new(string) }, func(d interface{}) bool { return *d.(*string) == "abc" }},
+		{"nil-bytes", []byte(nil), func() interface{} { return new([]byte) }, func(d interface{}) bool { return *d.(*[]byte) == nil }},
+		{"nested-slice", [][]int16{{1, -1}, nil, {}}, func() interface{} { return new([][]int16) }, func(d interface{}) bool {
+			x := *d.(*[][]int16)
+			return len(x) == 3 && len(x[0]) == 2 && x[0][1] == -1 && x[1] == nil && x[2] != nil && len(x[2]) == 0
+		}},
+		{"map", map[string]uint8{"b": 2, "a": 1}, func() interface{} { return new(map[string]uint8) }, func(d interface{}) bool {
+			x := *d.(*map[string]uint8)
+			return len(x) == 2 && x["a"] == 1 && x["b"] == 2
+		}},
+		{"big", big.NewInt(-256), func() interface{} { return new(big.Int) }, func(d interface{}) bool { return d.(*big.Int).Cmp(big.NewInt(-256)) == 0 }},
+	}
+}
+
+// c23FreshEncode encodes v with a brand-new, never pooled encoder.
+func c23FreshEncode(v interface{}) ([]byte, error) {
+	var buf bytes.Buffer
+	e := rlpCodecObject.NewEncoder(&buf)
+	if err := e.Encode(v); err != nil {
+		return nil, err
+	}
+	return append([]byte{}, buf.Bytes()...), nil
+}
+
+// encoderHygiene must run on a single P (the caller sets GOMAXPROCS(1)).
+func (e *c23Env) encoderHygiene(only int) (cases, failed int) {
+	r := e.r
+	shapes := c23FailShapes()
+	goods := c23GoodValues()
+	ref := make([][]byte, len(goods))
+	for i, g := range goods {
+		var err error
+		if ref[i], err = c23FreshEncode(g.v); err != nil {
+			r.Sanity(false, "reference encoding of %s failed: %v", g.name, err)
+			return
+		}
+		if bs, err := BC.MarshalToBytes(g.v); err != nil || !bytes.Equal(bs, ref[i]) {
+			r.Violation("pooled-encoding-differs-from-fresh-encoder", fmt.Sprintf("value=%s pooled=%x fresh=%x err=%v", g.name, bs, ref[i], err), c23Case{Phase: "enchyg", Index: -1, Note: g.name})
+		}
+	}
+	badInputs := []struct {
+		in []byte
+		mk func() interface{}
+	}{
+		{[]byte{0xc3, 0xf8, 0x00, 0x00}, func() interface{} { return new(*c23S1) }},
+		{[]byte{0xb9, 0x01, 0x00, 0x01}, func() interface{} { return new([]byte) }},
+		{[]byte{0xc5, 0x01}, func() interface{} { return new(c23S3) }},
+		{[]byte{0xc2, 0x82, 0x01}, func() interface{} { return new([]int16) }},
+	}
+	checkGood := func(sh c23FailShape, si int, gi int, when string) {
+		g := goods[gi]
+		cs := c23Case{Phase: "enchyg", Index: int64(si), Note: sh.name}
+		var bs []byte
+		var err error
+		if p := ev.Catch(func() { bs, err = BC.MarshalToBytes(g.v) }); p != "" || err != nil {
+			r.Violation("pooled-encoder-poisoned:"+sh.class, fmt.Sprintf("after the failing MarshalToBytes(%s) [%s], MarshalToBytes(%s) gave panic=%q err=%v", sh.name, when, g.name, p, err), cs)
+			ev.Catch(func() { BC.MarshalToBytes(g.v) }) // try to get a clean encoder back into the pool
+			return
+		}
+		if !bytes.Equal(bs, ref[gi]) {
+			r.Violation("pooled-encoder-poisoned:"+sh.class, fmt.Sprintf("after the failing MarshalToBytes(%s) [%s], MarshalToBytes(%s) = %x, want %x (fresh encoder)", sh.name, when, g.name, bs, ref[gi]), cs)
+			BC.MarshalToBytes(g.v) // the stale child is gone after one use
+			return
+		}
+		out := g.back()
+		if rest, err := BC.UnmarshalFromBytes(bs, out); err != nil || len(rest) != 0 || !g.same(out) {
+			r.Violation("pooled-encoding-does-not-decode-back:"+sh.class, fmt.Sprintf("after the failing MarshalToBytes(%s) [%s]: %s -> %x -> %+v rest=%x err=%v", sh.name, when, g.name, bs, out, rest, err), cs)
+		}
+	}
+	for si, sh := range shapes {
+		if only >= 0 && si != only {
+			continue
+		}
+		for gi := range goods {
+			for mode := 0; mode < 3; mode++ {
+				r.Eval(1)
+				cases++
+				r.Nontrivial(fmt.Sprintf("enchyg|%s|%d|%d", sh.name, gi, mode))
+				if mode == 1 { // failing decode first
+					b := badInputs[(si+gi)%len(badInputs)]
+					ev.Catch(func() { BC.UnmarshalFromBytes(b.in, b.mk()) })
+				}
+				var err error
+				p := ev.Catch(func() { _, err = BC.MarshalToBytes(sh.v) })
+				if p != "" || err != nil {
+					failed++
+				}
+				if mode == 2 { // failing decode between the failing and the good marshal
+					b := badInputs[(si+gi)%len(badInputs)]
+					ev.Catch(func() { BC.UnmarshalFromBytes(b.in, b.mk()) })
+				}
+				checkGood(sh, si, gi, []string{"directly", "failing decode, then failing encode", "failing encode, then failing decode"}[mode])
+				// and once more: two good marshals in a row
+				checkGood(sh, si, (gi+1)%len(goods), "second marshal after the failure")
+			}
+		}
+	}
+	return
+}
+
 // ---- batching ----
 
 type c23Batch struct {
@@ -1611,7 +1839,7 @@ func c23IntFamily() [][]byte {
 
 func TestVerifC23(t *testing.T) {
 	r := ev.Start(t, "C23", "exploration")
-	r.Rule("(A) round trip: typed value grammar built with reflect — leaves: int8/16/32/64/int, uint8/16/32/64/uint at every byte-length boundary, bool, string and []byte of length {0,1,2,55,56,255,256} incl. single bytes 00/7f/80/ff and nil []byte, [4]byte, [1]byte, *big.Int (nil,0,±1,±127..129,±2^64,±2^255) and big.Int fields; constructors {pointer, slice, [2]array, map[string], 1-field struct} applied to every leaf with all leaf values (depth 1), constructor∘constructor over every leaf with representative values (depth 2), a third constructor over depth-2 shapes (quick every 4th shape, thorough all; pairwise values), integer-keyed maps, every ordered pair of leaf types as a 2-field struct, 3-field structs over 7 leaf types, 2-field structs of depth-1 shapes. (B) decoder robustness: every byte string of length<=2 (+ 3-byte strings: quick first byte {b8,c3,f7,f8} x 17 boundary second bytes x all third bytes, thorough 15 boundary first bytes x all 65536 tails) into 24 target types and UnmarshalAny; every single-byte substitution (24 boundary values; thorough all 256 values for encodings of at most 10 bytes) and truncation of valid encodings of at most 24 (thorough 32) bytes into their own type; every structural mutation of those encodings (one sub-item replaced by the nil marker / empty list / empty bytes / 00, deleted, or duplicated); length-field family (b8..bf / f8..ff headers x 18 claimed sizes x payload lengths {0,1,claim-1,claim,claim+1} x 4 fills, also nested in a list); nested length-field family (a long-form list header around a long-form bytes or list header, and list{list{bytes}}, every combination of 9 claimed sizes per header from 56 to 2^64-1 in minimal and 8-byte form, with 0/1/5 trailing bytes, optionally after one well-formed element) into every target, plus a sequential per-case allocation measurement of both families through UnmarshalFromBytes (bound O(input)) and through the stream decoder (bound MaxSizeForBytes); integer family (byte strings of length 0..9 at the sign/width boundaries) into every integer type and bool. (B') pool hygiene, sequential on one P: after every accepted input of the structural, length-field, nested length-field and <=2-byte families (list-reading targets) the pooled BC.UnmarshalFromBytes must still decode an unrelated valid message. (C) map determinism: every insertion order of up to 4 (thorough 6) keys. distinct_nontrivial = distinct (type, encoding) resp. (target, input) pairs")
+	r.Rule("(A) round trip: typed value grammar built with reflect — leaves: int8/16/32/64/int, uint8/16/32/64/uint at every byte-length boundary, bool, string and []byte of length {0,1,2,55,56,255,256} incl. single bytes 00/7f/80/ff and nil []byte, [4]byte, [1]byte, *big.Int (nil,0,±1,±127..129,±2^64,±2^255) and big.Int fields; constructors {pointer, slice, [2]array, map[string], 1-field struct} applied to every leaf with all leaf values (depth 1), constructor∘constructor over every leaf with representative values (depth 2), a third constructor over depth-2 shapes (quick every 4th shape, thorough all; pairwise values), integer-keyed maps, every ordered pair of leaf types as a 2-field struct, 3-field structs over 7 leaf types, 2-field structs of depth-1 shapes. (B) decoder robustness: every byte string of length<=2 (+ 3-byte strings: quick first byte {b8,c3,f7,f8} x 17 boundary second bytes x all third bytes, thorough 15 boundary first bytes x all 65536 tails) into 24 target types and UnmarshalAny; every single-byte substitution (24 boundary values; thorough all 256 values for encodings of at most 10 bytes) and truncation of valid encodings of at most 24 (thorough 32) bytes into their own type; every structural mutation of those encodings (one sub-item replaced by the nil marker / empty list / empty bytes / 00, deleted, or duplicated); length-field family (b8..bf / f8..ff headers x 18 claimed sizes x payload lengths {0,1,claim-1,claim,claim+1} x 4 fills, also nested in a list); nested length-field family (a long-form list header around a long-form bytes or list header, and list{list{bytes}}, every combination of 9 claimed sizes per header from 56 to 2^64-1 in minimal and 8-byte form, with 0/1/5 trailing bytes, optionally after one well-formed element) into every target, plus a sequential per-case allocation measurement of both families through UnmarshalFromBytes (bound O(input)) and through the stream decoder (bound MaxSizeForBytes); integer family (byte strings of length 0..9 at the sign/width boundaries) into every integer type and bool. (B') pool hygiene, sequential on one P: after every accepted input of the structural, length-field, nested length-field and <=2-byte families (list-reading targets) the pooled BC.UnmarshalFromBytes must still decode an unrelated valid message. (B'') encoder pool hygiene, sequential on one P: every failing marshal shape (12 unencodable things — chan, func, float, complex, custom RLPEncodeSelf failing before / after 0..2 list elements or panicking, failing MarshalRLP / MarshalBinary, map with float key — at top level and nested at depth 1..3 in every slice/struct/map nesting after 0..2 well-formed elements) followed directly, or with a failing decode before / in between, by BC.MarshalToBytes of 7 well-formed values twice: the bytes must equal those of a brand-new unpooled encoder and decode back. (C) map determinism: every insertion order of up to 4 (thorough 6) keys. distinct_nontrivial = distinct (type, encoding) resp. (target, input) pairs")
 	r.Assume("a pointer to a nil slice/map/pointer has the same encoding (f8 00) as a nil pointer: the format cannot keep them apart, the decoder returns the former, and the comparison treats the two as one value",
 		"interface-typed fields and ordered TypedDict.Keys are encode-only resp. order-preserving by design and are not compared structurally (typed objects are compared through UnmarshalAny)",
 		"the independent RLP reader in the harness (with goloop's f8 00 = nil extension) is trusted for sizes and structure")
@@ -1700,6 +1928,10 @@ func TestVerifC23(t *testing.T) {
 				}
 				r.Eval(1)
 			}
+			runtime.GOMAXPROCS(prev)
+		case "enchyg":
+			prev := runtime.GOMAXPROCS(1)
+			e.encoderHygiene(int(c.Index))
 			runtime.GOMAXPROCS(prev)
 		case "stream":
 			if tg, ok := tgByName[c.Target]; ok {
@@ -2038,6 +2270,13 @@ func TestVerifC23(t *testing.T) {
 		runtime.GOMAXPROCS(prev)
 		r.Set("pool_hygiene_canaries", e.canaries)
 		r.Sanity(e.canaries > 1000, "too few accepted inputs followed by a canary decode (%d)", e.canaries)
+		// encoder pool hygiene (same single-P regime)
+		prev = runtime.GOMAXPROCS(1)
+		encCases, encFailed := e.encoderHygiene(-1)
+		runtime.GOMAXPROCS(prev)
+		r.Set("encoder_hygiene_cases", encCases)
+		r.Set("encoder_hygiene_failing_marshals", encFailed)
+		r.Sanity(encCases > 1000 && encFailed*10 > encCases*9, "encoder hygiene: %d cases, only %d failing marshals", encCases, encFailed)
 	}
 
 	phase("pool_hygiene")
